@@ -64,6 +64,9 @@ pub enum SeqOp {
     Pal { arm: Vec<u8>, mid: u8 },
     /// run of A
     PolyA(u8),
+    /// an island between unknown bases: an N run whose length is a small multiple of k, k+1 or k+2, then exactly
+    /// k (or k+1) valid bases, then one more N (scaffold gaps of round lengths next to short contigs)
+    Island { mult: u8, bases: Vec<u8> },
 }
 
 #[derive(Clone, Debug, Serialize, Deserialize, PartialEq)]
@@ -139,6 +142,13 @@ pub fn materialise_rec(rec: &Rec, k: usize, earlier: &[u8]) -> Vec<u8> {
             }
             // 1..69: that many A; 70..255: a homopolymer of C, G or T of 1..62 bases (two such ops in a row
             // give a junction X^m Y^n: consecutive windows with the same arms and different middle bases)
+            SeqOp::Island { mult, bases } => {
+                let run = (1 + (*mult as usize) % 3) * (k + (*mult as usize / 3) % 3);
+                out.extend(std::iter::repeat(b'N').take(run));
+                let len = k + (*mult as usize / 9) % 2;
+                out.extend((0..len).map(|i| b2c(bases[i % bases.len()].wrapping_add((i / bases.len()) as u8))));
+                out.push(b'N');
+            }
             SeqOp::PolyA(n) => {
                 if *n < 70 {
                     out.extend(std::iter::repeat(b'A').take(*n as usize))
@@ -215,6 +225,7 @@ pub fn seqop_strategy(k: usize) -> BoxedStrategy<SeqOp> {
             .prop_map(|(src, extra, rc, mid)| SeqOp::Copy { src, extra, rc, mid }),
         1 => (vec(0u8..4, 1..6), 0u8..4).prop_map(|(arm, mid)| SeqOp::Pal { arm, mid }),
         2 => (1u8..=255).prop_map(SeqOp::PolyA),
+        1 => (0u8..18, vec(0u8..4, 3..12)).prop_map(|(mult, bases)| SeqOp::Island { mult, bases }),
     ]
     .boxed()
 }
